@@ -1,7 +1,6 @@
 package main
 
 import (
-	"math/rand/v2"
 	"sync/atomic"
 
 	"github.com/miekg/dns"
@@ -499,10 +498,4 @@ func installUnusableGlue(w *world, c *CaseSpec, addr string) {
 	onAll(w, authsim.Rule{Name: "*.sub.evil.test.", Action: authsim.Tamper(c.Label, func(q, _ *dns.Msg) *dns.Msg {
 		return referral(q, []dns.RR{nsRR("sub.evil.test.", host, dns.ClassINET)}, []dns.RR{addrRR(host, addr)})
 	})})
-}
-
-func pickVariant(rng *rand.Rand, k *attackKind, round int) string {
-	// rotate through the variants by round so every variant of every kind is
-	// exercised at any seed once the case count allows it
-	return k.Variants[(round+rng.IntN(1))%len(k.Variants)]
 }
